@@ -253,7 +253,7 @@ def rule_SQ3(ctx, tier):
         if _only_error_returns(ctx, b, commits):
             rr.ok("%s: statements on one transaction, committed" % shortfn(b.id), sample={"rule": "SQ3", "method": b.id, "execute sites": len(ex), "transaction": True, "commit on every non-error path": True})
         else:
-            rr.fail("uncommitted:%s" % shortfn(b.id), "`%s` can return normally without committing its transaction (the writes are rolled back on drop)" % shortfn(b.id), where=b.span)
+            rr.fail("uncommitted:%s" % shortfn(b.id), "`%s` can return normally on a path that does not pass its commit: either the transaction is dropped uncommitted (its writes are rolled back), or a shortcut returns before the transaction and skips part of what the method is handed to write" % shortfn(b.id), where=b.span)
     if n < 9:
         rr.fail("floor:multi-statement-methods", "found %d multi-statement DBM methods, 9 confirmed by reading" % n)
     rr.require_floor(7, "SQ3 instances")
@@ -559,4 +559,308 @@ def rule_SQ6(ctx, tier):
                     else:
                         rr.fail("query_row-not-unique:%s:%s" % (shortfn(bid), r[1]), "%s DBM: `%s` reads `%s` with query_row, but the statement does not fix %s of table `%s`'s primary key: with several matching rows the first one wins silently (rows of other towers / users sharing the fixed part)" % (side, shortfn(bid), st[:110], r[2], r[1]), where=b.line_of(bb))
     rr.require_floor(12, "query_row statements")  # 17 on the reference tree; merging two reads into one correct join is fine
+    return rr
+
+
+# ------------------------------------------------------------------------------------------------------------------
+# SQ7: what a row reader takes from position i is the column the SELECT puts at position i
+_WS = ("teos::", "teos_common::", "watchtower_plugin::", "watchtower_client::", "teosd::")
+# column name -> name of the constructor parameter / field it legitimately lands in when the two differ (read and confirmed)
+_ROLE_ALIAS = {
+    ("penalty_tx", "penalty_txid"): "PenaltySummary keeps the id of the stored penalty (compute_txid of the column)",
+    ("tower_signature", "signature"): "AppointmentReceipt::with_signature names the tower's signature `signature`",
+}
+
+
+def _select_cols(st):
+    import re
+    m = re.match(r"SELECT (.*?) FROM ", sql.norm(st), re.I)
+    if not m:
+        return None
+    cols, depth, cur = [], 0, ""
+    for ch in m.group(1):
+        depth += ch == "("
+        depth -= ch == ")"
+        if ch == "," and depth == 0:
+            cols.append(cur.strip())
+            cur = ""
+        else:
+            cur += ch
+    cols.append(cur.strip())
+    out = []
+    for c in cols:
+        if "(" in c or "*" in c:
+            out.append(None)            # an expression: position only
+        else:
+            w = c.split()
+            out.append((w[-1] if len(w) >= 3 and w[-2].upper() == "AS" else w[0]).split(".")[-1])
+    return out
+
+
+def _reader_roles(P, term, role, out, depth=0):
+    """(index, role, statement-or-None) for every Row::get(_, const i) inside `term`; role = the field / constructor-parameter name the
+    value lands in (conversions pass the role through), None when it lands in nothing that has a name"""
+    if depth > 60 or not isinstance(term, tuple) or not term:
+        return
+    k = term[0]
+    if k == "call" and term[1].endswith("Row::<'stmt>::get") and len(term[2]) == 2:
+        ix = og.strip(term[2][1])
+        if isinstance(ix, tuple) and ix and ix[0] == "const" and isinstance(ix[1], int) and not isinstance(ix[1], bool):
+            sts = [str(x[1]) for x in og.walk(term[2][0]) if isinstance(x, tuple) and x and x[0] == "const" and isinstance(x[1], str) and x[1].lstrip().upper().startswith("SELECT")]
+            out.append((ix[1], role, sql.norm(sts[0]) if len(set(sts)) == 1 else None))
+        return
+    if k in ("call", "ret"):
+        fn = term[1]
+        args = term[2] if k == "call" else (term[4] if len(term) > 4 and isinstance(term[4], tuple) else ())
+        cb = P.bodies.get(fn) if fn.startswith(_WS) or fn.startswith("<teos") or fn.startswith("<watchtower") else None
+        for i, a in enumerate(args):
+            r = role
+            if cb is not None and len(args) >= 2 and i + 1 < len(cb.locals):
+                n = cb.locals[i + 1].get("name")
+                if n and n != "self":
+                    r = n
+            _reader_roles(P, a, r, out, depth + 1)
+        return
+    if k == "agg":
+        for fname, sub in term[3]:
+            _reader_roles(P, sub, role if str(fname).isdigit() else fname, out, depth + 1)
+        return
+    if k == "phi":
+        for a in term[1]:
+            _reader_roles(P, a, role, out, depth + 1)
+        return
+    for x in term[1:]:
+        if isinstance(x, tuple):
+            _reader_roles(P, x, role, out, depth + 1)
+
+
+def rule_SQ7(ctx, tier):
+    rr = RuleResult("SQ7", "row readers agree with their SELECT: position i is inside the column list, and a value that lands in a named field / constructor parameter comes from the column of that name")
+    P = ctx.prog
+    from .rulekit import arg_origin
+    nfn = 0
+    for side, prefix in (("tower", TDBM), ("client", PDBM)):
+        for bid, b in sorted(P.bodies.items()):
+            if not bid.startswith(prefix) or "::tests" in bid or b.kind not in ("fn", "method"):
+                continue
+            fam = [P.bodies[c] for c in P.family(bid)]
+            # statement consumed by each closure (query_row / query_map / query_and_then hand the row to it)
+            by_closure = {}
+            sels = []
+            for fb in fam:
+                for bb, st in sql.body_sql(fb):
+                    if st.upper().startswith("SELECT"):
+                        sels.append(sql.norm(st))
+                for bb, t in fb.calls():
+                    if (call_target(t) or "").split("::")[-1] in ("query_row", "query_map", "query_and_then"):
+                        recv = arg_origin(ctx, fb, bb, 0)
+                        sts = {sql.norm(str(x[1])) for x in og.walk(recv) if isinstance(x, tuple) and x and x[0] == "const" and isinstance(x[1], str) and x[1].lstrip().upper().startswith("SELECT")}
+                        for i in range(1, len(t["args"])):
+                            a = arg_origin(ctx, fb, bb, i)
+                            if isinstance(a, tuple) and a and a[0] == "closure" and len(sts) == 1:
+                                by_closure[a[1]] = next(iter(sts))
+            if not sels:
+                continue
+            reads = []
+            for fb in fam:
+                found = []
+                _reader_roles(P, ctx.og.local(fb, 0), None, found)
+                for bb, t in fb.calls():
+                    if (call_target(t) or "").split("::")[-1] in ("insert", "push", "extend", "push_back"):
+                        for i in range(1, len(t["args"])):
+                            _reader_roles(P, arg_origin(ctx, fb, bb, i), None, found)
+                for ix, role, st in found:
+                    st = st or by_closure.get(fb.id) or (sels[0] if len(set(sels)) == 1 else None)
+                    reads.append((ix, role, st, fb))
+            if not reads:
+                continue
+            nfn += 1
+            seen = set()
+            for ix, role, st, fb in reads:
+                if st is None or (ix, role, st) in seen:
+                    continue
+                seen.add((ix, role, st))
+                cols = _select_cols(st)
+                if cols is None:
+                    continue
+                if ix >= len(cols):
+                    rr.fail("row-index-out-of-range:%s:%d" % (shortfn(bid), ix), "%s DBM: `%s` reads position %d of a row of `%s`, which selects %d column(s): rusqlite answers InvalidColumnIndex and the unwrap panics" % (side, shortfn(bid), ix, st[:80], len(cols)), where=fb.span)
+                    continue
+                c = cols[ix]
+                if c is None or role is None or role.startswith("arg"):
+                    rr.ok("%s[%d] in range" % (shortfn(bid), ix), nontrivial=False)
+                    continue
+                if c.lower() == role.lower() or (c.lower(), role.lower()) in _ROLE_ALIAS:
+                    rr.ok("%s: column %s -> %s" % (shortfn(bid), c, role), sample={"rule": "SQ7", "function": shortfn(bid), "position": ix, "column": c, "lands in": role})
+                else:
+                    rr.fail("column-role-mismatch:%s:%s->%s" % (shortfn(bid), c, role), "%s DBM: `%s` puts position %d of `%s` — column `%s` — into `%s`: what is loaded is not what was stored under that name (two columns of the same type swap silently)" % (side, shortfn(bid), ix, st[:70], c, role), where=fb.span)
+    rr.require_floor(40, "named column reads")
+    if nfn < 20:
+        rr.fail("floor:reader-functions", "only %d DBM functions with row reads were analysed (27 on the reference tree)" % nfn)
+    return rr
+
+
+# ------------------------------------------------------------------------------------------------------------------
+# SQ8: what is bound to a placeholder is the value of the column the placeholder stands for
+_PARAM_ALIAS = {
+    ("tower_signature", "signature"): "AppointmentReceipt::signature() is the tower's signature",
+    ("uuid", "uuid"): "",
+    ("user_id", "updated_users"): "batch_remove_appointments iterates (user_id, info) pairs of `updated_users`: the key is the user id",
+    ("penalty_tx", "penalty_tx"): "",
+    ("key", "sk"): "the keys table holds the secret key",
+    ("height", "to_db_data"): "ConfirmationStatus::to_db_data() -> (height, confirmed); that the pair is in this order and inverse to from_db_data is DX's clause",
+    ("confirmed", "to_db_data"): "as above",
+    ("height", "status"): "the height carried by the ConfirmationStatus argument (to_db_data followed through)",
+    ("confirmed", "status"): "as above",
+}
+_CONVERSIONS = ("to_vec", "serialize", "to_string", "clone", "as_ref", "into", "to_owned", "as_str", "as_bytes", "deref", "borrow", "to_be_bytes", "encode", "serialize_hex")
+
+
+def _param_role(P, term):
+    """name under which a bound value is known where it comes from: the last named field of the parameter it is taken from, else the
+    parameter's own name, else the accessor that produced it; None if it is none of these"""
+    best = [None]
+
+    def rec(x, names):
+        if best[0] is not None or not isinstance(x, tuple) or not x:
+            return
+        if x[0] == "proj":
+            fs = [e[2:] for e in x[2] if isinstance(e, str) and e.startswith("f:") and not e[2:].isdigit()]
+            rec(x[1], fs + names)
+            return
+        if x[0] == "param":
+            if names:
+                best[0] = names[-1]
+            else:
+                b = P.bodies.get(x[1])
+                best[0] = b.locals[x[2]].get("name") if b is not None and x[2] < len(b.locals) else None
+            return
+        if x[0] in ("call", "ret"):
+            fn = x[1]
+            args = x[2] if x[0] == "call" else (x[4] if len(x) > 4 and isinstance(x[4], tuple) else ())
+            last = fn.split("::")[-1]
+            if fn.startswith(("teos", "watchtower", "<teos", "<watchtower")) and len(args) == 1 and last not in _CONVERSIONS:
+                best[0] = last
+                return
+            for a in args:
+                rec(a, names)
+            return
+        for y in x[1:]:
+            if isinstance(y, tuple):
+                rec(y, names)
+    rec(og.strip(term), [])
+    return best[0]
+
+
+def _placeholder_columns(st):
+    """-> (list of (column, placeholder number or None for a plain `?`) in textual order, problems[])"""
+    import re
+    s = sql.norm(st)
+    pairs, problems = [], []
+    m = re.match(r"INSERT( OR REPLACE)? INTO \w+ ?\(([^)]*)\) ?VALUES ?\(([^)]*)\)(.*)$", s, re.I)
+    rest = s
+    if m:
+        cols = [c.strip() for c in m.group(2).split(",")]
+        vals = [v.strip() for v in m.group(3).split(",")]
+        if len(cols) != len(vals):
+            problems.append("INSERT lists %d columns and %d values" % (len(cols), len(vals)))
+        for c, v in zip(cols, vals):
+            mm = re.match(r"^\(?\?(\d*)\)?$", v)
+            if mm:
+                pairs.append((c, int(mm.group(1)) if mm.group(1) else None))
+        rest = m.group(4)
+    elif s.upper().startswith("INSERT"):
+        return None, []
+    for mm in re.finditer(r"(?:\b\w+\.)?(\w+)\s*=\s*\(?\?(\d*)\)?", rest):
+        pairs.append((mm.group(1), int(mm.group(2)) if mm.group(2) else None))
+    return pairs, problems
+
+
+def _consts_in(x):
+    """(kind, value) of the string constants inside an extracted statement / terminator"""
+    out = []
+    if isinstance(x, dict):
+        for key in ("str",):
+            if isinstance(x.get(key), str):
+                out.append(("const", x[key]))
+        for v in x.values():
+            out.extend(_consts_in(v))
+    elif isinstance(x, list):
+        for v in x:
+            out.extend(_consts_in(v))
+    return out
+
+
+def rule_SQ8(ctx, tier):
+    rr = RuleResult("SQ8", "placeholders and bound values: numbered placeholders run 1..n with n values bound; the value bound to `col = ?k` / to column k of an INSERT comes from the parameter or field of that name")
+    P = ctx.prog
+    from .rulekit import arg_origin
+    import re
+    nst = 0
+    for side, prefix in (("tower", TDBM), ("client", PDBM)):
+        for bid, b in sorted(P.bodies.items()):
+            if not bid.startswith(prefix) or "::tests" in bid:
+                continue
+            for bb, t in b.calls():
+                last = (call_target(t) or "").split("::")[-1]
+                if last not in ("execute", "query_row", "query", "query_map", "exists", "store_data", "update_data", "remove_data", "query_and_then"):
+                    continue
+                sts = [sql.norm(str(x[1])) for i in range(len(t["args"])) for x in og.walk(arg_origin(ctx, b, bb, i))
+                       if isinstance(x, tuple) and x and x[0] == "const" and isinstance(x[1], str) and re.match(r"\s*(SELECT|INSERT|UPDATE|DELETE) ", x[1], re.I)]
+                if len(set(sts)) != 1:
+                    continue
+                st = sts[0]
+                vals = None
+                for i in range(1, len(t["args"])):
+                    a = og.strip(arg_origin(ctx, b, bb, i))
+                    if isinstance(a, tuple) and a and a[0] in ("tuple", "array"):
+                        vals = list(a[1])
+                        break
+                if vals is None:
+                    continue   # parameters built at run time (IN lists): SQ4 owns those
+                pairs, problems = _placeholder_columns(st)
+                if pairs is None:
+                    continue
+                nst += 1
+                nums = [k for c, k in pairs if k is not None]
+                plain = [c for c, k in pairs if k is None]
+                holes = len(re.findall(r"\?", st))
+                # fragments appended to the statement at run time (`sql.push_str(" AND a.locator=(?)")`) may add placeholders
+                extra = sum(str(x[1]).count("?") for fb_ in [b] for bb_ in fb_.rpo() for s_ in fb_.blocks[bb_]["s"] + [fb_.term(bb_)]
+                            for x in _consts_in(s_) if isinstance(x[1], str) and sql.norm(x[1]) != st and "?" in x[1] and not re.match(r"\s*(SELECT|INSERT|UPDATE|DELETE) ", x[1], re.I))
+                for pb in problems:
+                    rr.fail("placeholders:%s" % shortfn(bid), "%s DBM: `%s`: %s" % (side, st[:90], pb), where=b.line_of(bb))
+                if nums and plain:
+                    rr.fail("placeholders:mixed:%s" % shortfn(bid), "%s DBM: `%s` mixes numbered and plain placeholders" % (side, st[:90]), where=b.line_of(bb))
+                    continue
+                if nums:
+                    if sorted(set(nums)) != list(range(1, len(vals) + 1)):
+                        rr.fail("placeholders:numbers:%s" % shortfn(bid), "%s DBM: `%s` uses placeholders %s but %d value(s) are bound: a number is skipped, repeated in place of another, or out of range (rusqlite refuses the statement, or a column silently receives another column's value)" % (side, st[:90], sorted(set(nums)), len(vals)), where=b.line_of(bb))
+                        continue
+                    m_ins = re.match(r"INSERT", st, re.I)
+                    if m_ins:
+                        ins = [k for c, k in pairs[:len(re.match(r"INSERT( OR REPLACE)? INTO \w+ ?\(([^)]*)\)", st, re.I).group(2).split(","))]]
+                        if ins != list(range(1, len(ins) + 1)):
+                            rr.fail("placeholders:insert-order:%s" % shortfn(bid), "%s DBM: the VALUES list of `%s` is %s, not ?1..?%d in column order" % (side, st[:90], ["?%d" % k for k in ins], len(ins)), where=b.line_of(bb))
+                            continue
+                elif holes != len(vals) and not (holes < len(vals) <= holes + extra):
+                    rr.fail("placeholders:count:%s" % shortfn(bid), "%s DBM: `%s` has %d placeholder(s), %d value(s) are bound" % (side, st[:90], holes, len(vals)), where=b.line_of(bb))
+                    continue
+                # value bound to the placeholder of column c
+                pos = 0
+                for c, k in pairs:
+                    pos += 1
+                    idx = (k if k is not None else pos) - 1
+                    if idx >= len(vals):
+                        continue
+                    role = _param_role(P, vals[idx])
+                    if role is None:
+                        rr.ok("%s: %s <- (unnamed value)" % (shortfn(bid), c), nontrivial=False)
+                    elif role.lower() == c.lower() or (c.lower(), role.lower()) in _PARAM_ALIAS:
+                        rr.ok("%s: %s <- %s" % (shortfn(bid), c, role), sample={"rule": "SQ8", "function": shortfn(bid), "column": c, "bound value": role})
+                    else:
+                        rr.fail("bound-value-mismatch:%s:%s<-%s" % (shortfn(bid), c, role), "%s DBM: in `%s` the placeholder of column `%s` is bound to `%s` (%s): a value of the same type stored under, or compared with, the wrong column" % (side, st[:80], c, role, og.show(vals[idx])[:60]), where=b.line_of(bb))
+    rr.require_floor(60, "bound values")
+    if nst < 40:
+        rr.fail("floor:statements", "only %d statements with bound values analysed" % nst)
     return rr
